@@ -2,6 +2,7 @@ package rgen
 
 import (
 	"fmt"
+	"strconv"
 	"strings"
 
 	"pgregory.net/rapid"
@@ -112,8 +113,12 @@ func GenTripDesc(t *rapid.T, idx int, zone string) TripDesc {
 		d.TripID = P(fmt.Sprintf("%s-%d", base, idx))
 		if rapid.IntRange(0, 5).Draw(t, "prefixID") == 0 {
 			// ids that are prefixes / suffixes of one another: "A-1", "A-1x", "xA-1" ... (idx keeps them distinct)
-			d.TripID = P(rapid.SampledFrom([]string{"%d", "%d0", "0%d", "%dx", "x%d", "%d "}).Draw(t, "prefixShape"))
-			*d.TripID = fmt.Sprintf(*d.TripID, idx)
+			d.TripID = P(rapid.SampledFrom([]string{"%d", "%d0", "0%d", "%dx", "x%d", "%d ", "twin", "twin"}).Draw(t, "prefixShape"))
+			if *d.TripID == "twin" {
+				*d.TripID = numericTwin(idx)
+			} else {
+				*d.TripID = fmt.Sprintf(*d.TripID, idx)
+			}
 		}
 		if rapid.Bool().Draw(t, "route?") {
 			d.RouteID = P(rapid.SampledFrom([]string{"R", "M", "7X", "r 1", "m", "M "}).Draw(t, "route"))
@@ -134,9 +139,19 @@ func GenTripDesc(t *rapid.T, idx int, zone string) TripDesc {
 	return d
 }
 
+// numericTwin gives distinct strings for distinct idx such that four neighbouring idx read as the SAME decimal number
+// ("9000001", "09000001", "009000001", "+9000001"): ids that a numeric comparison cannot tell apart. The number is far above
+// every idx in use, so that the strings cannot coincide with the other id shapes.
+func numericTwin(idx int) string {
+	return []string{"", "0", "00", "+"}[idx%4] + strconv.Itoa(9_000_000+idx/4)
+}
+
 // GenVehDesc draws a non-empty vehicle descriptor, distinct per idx.
 func GenVehDesc(t *rapid.T, idx int) VehDesc {
-	u := fmt.Sprintf("%s%d", rapid.SampledFrom([]string{"V", "v", "1", "é", " "}).Draw(t, "vehBase"), idx)
+	u := fmt.Sprintf("%s%d", rapid.SampledFrom([]string{"V", "v", "1", "é", " ", "twin", "twin"}).Draw(t, "vehBase"), idx)
+	if strings.HasPrefix(u, "twin") {
+		u = numericTwin(idx)
+	}
 	var d VehDesc
 	switch rapid.IntRange(0, 5).Draw(t, "vehMode") {
 	case 0, 1, 2:
